@@ -14,7 +14,8 @@
 //! access the `RouterProxy` methods (via `ROUTER`'s `Deref` for `RouterProxy`.
 use lazy_static::lazy_static;
 use std::collections::HashMap;
-use std::sync::Mutex;
+use std::sync::atomic::{AtomicBool, Ordering};
+use std::sync::{Arc, Mutex};
 use std::thread;
 
 use crate::ipc::OpaqueIpcReceiver;
@@ -48,11 +49,16 @@ impl RouterProxy {
         // Router proxy takes both sending ends.
         let (msg_sender, msg_receiver) = crossbeam_channel::unbounded();
         let (wakeup_sender, wakeup_receiver) = ipc::channel().unwrap();
-        thread::spawn(move || Router::new(msg_receiver, wakeup_receiver).run());
+        let wakeup_pending = Arc::new(AtomicBool::new(false));
+        let router_wakeup_pending = wakeup_pending.clone();
+        thread::spawn(move || {
+            Router::new(msg_receiver, wakeup_receiver, router_wakeup_pending).run()
+        });
         RouterProxy {
             comm: Mutex::new(RouterProxyComm {
                 msg_sender,
                 wakeup_sender,
+                wakeup_pending,
                 shutdown: false,
                 shutdown_ack: None,
             }),
@@ -71,7 +77,7 @@ impl RouterProxy {
         comm.msg_sender
             .send(RouterMsg::AddRoute(receiver, callback))
             .unwrap();
-        comm.wakeup_sender.send(()).unwrap();
+        comm.wake().unwrap();
     }
 
     /// Send a shutdown message to the router containing a ACK sender,
@@ -90,14 +96,12 @@ impl RouterProxy {
 
                     let (ack_sender, ack_receiver) = crossbeam_channel::unbounded();
                     comm.shutdown_ack = Some(ack_receiver.clone());
-                    comm.wakeup_sender
-                        .send(())
-                        .map(|_| {
-                            comm.msg_sender
-                                .send(RouterMsg::Shutdown(ack_sender))
-                                .unwrap();
-                        })
+                    comm.msg_sender
+                        .send(RouterMsg::Shutdown(ack_sender))
                         .unwrap();
+                    // The router may already have found the request (an earlier wake-up makes it
+                    // look at the queue) and stopped, so this wake-up may have nobody to go to.
+                    let _ = comm.wake();
                     ack_receiver
                 },
             }
@@ -141,9 +145,26 @@ impl RouterProxy {
 struct RouterProxyComm {
     msg_sender: Sender<RouterMsg>,
     wakeup_sender: IpcSender<()>,
+    /// True while a wake-up is on its way that the router has not served yet.
+    wakeup_pending: Arc<AtomicBool>,
     shutdown: bool,
     /// Set once shutdown was requested; disconnected once the router has stopped.
     shutdown_ack: Option<Receiver<()>>,
+}
+
+impl RouterProxyComm {
+    /// Wake the router up, unless a wake-up it has not served yet is already on its way.
+    ///
+    /// The router serves everything that is queued when it sees a wake-up, so one outstanding
+    /// wake-up is enough. Sending one per request would fill the wake-up channel when many
+    /// requests are made before the router gets back to `select` (callbacks that register
+    /// routes run on the router thread itself), and the blocked sender would hold the lock.
+    fn wake(&self) -> Result<(), bincode::Error> {
+        if !self.wakeup_pending.swap(true, Ordering::SeqCst) {
+            self.wakeup_sender.send(())?;
+        }
+        Ok(())
+    }
 }
 
 /// Router runs in its own thread listening for events. Adds events to its IpcReceiverSet
@@ -153,6 +174,8 @@ struct Router {
     msg_receiver: Receiver<RouterMsg>,
     /// The ID/index of the special channel we use to identify messages from msg_receiver.
     msg_wakeup_id: u64,
+    /// Shared with the proxy: true while a wake-up is outstanding.
+    wakeup_pending: Arc<AtomicBool>,
     /// Set of all receivers which have been registered for us to select on.
     ipc_receiver_set: IpcReceiverSet,
     /// Maps ids to their handler functions.
@@ -160,12 +183,17 @@ struct Router {
 }
 
 impl Router {
-    fn new(msg_receiver: Receiver<RouterMsg>, wakeup_receiver: IpcReceiver<()>) -> Router {
+    fn new(
+        msg_receiver: Receiver<RouterMsg>,
+        wakeup_receiver: IpcReceiver<()>,
+        wakeup_pending: Arc<AtomicBool>,
+    ) -> Router {
         let mut ipc_receiver_set = IpcReceiverSet::new().unwrap();
         let msg_wakeup_id = ipc_receiver_set.add(wakeup_receiver).unwrap();
         Router {
             msg_receiver,
             msg_wakeup_id,
+            wakeup_pending,
             ipc_receiver_set,
             handlers: HashMap::new(),
         }
@@ -174,8 +202,8 @@ impl Router {
     /// Continuously loop waiting for wakeup signals from router proxy.
     /// Iterate over events either:
     /// 1) If a message comes in from our special `wakeup_receiver` (identified through
-    ///    msg_wakeup_id. Read message from `msg_receiver` and add a new receiver
-    ///    to our receiver set.
+    ///    msg_wakeup_id. Read the queued messages from `msg_receiver` and add the new
+    ///    receivers to our receiver set.
     /// 2) Call appropriate handler based on message id.
     /// 3) Remove handler once channel closes.
     fn run(&mut self) {
@@ -193,19 +221,25 @@ impl Router {
                     // Message came from the RouterProxy. Listen on our `msg_receiver`
                     // channel.
                     IpcSelectionResult::MessageReceived(id, _) if id == self.msg_wakeup_id => {
-                        match self.msg_receiver.recv().unwrap() {
-                            RouterMsg::AddRoute(receiver, handler) => {
-                                let new_receiver_id =
-                                    self.ipc_receiver_set.add_opaque(receiver).unwrap();
-                                self.handlers.insert(new_receiver_id, handler);
-                            },
-                            RouterMsg::Shutdown(sender) => {
-                                // Drop every callback (and whatever it owns) before
-                                // acknowledging, then stop for good.
-                                self.handlers.clear();
-                                let _ = sender.send(());
-                                return;
-                            },
+                        // One wake-up stands for everything queued so far. The flag is cleared
+                        // *before* the queue is looked at: a request queued after this point
+                        // sends a wake-up of its own.
+                        self.wakeup_pending.store(false, Ordering::SeqCst);
+                        while let Ok(msg) = self.msg_receiver.try_recv() {
+                            match msg {
+                                RouterMsg::AddRoute(receiver, handler) => {
+                                    let new_receiver_id =
+                                        self.ipc_receiver_set.add_opaque(receiver).unwrap();
+                                    self.handlers.insert(new_receiver_id, handler);
+                                },
+                                RouterMsg::Shutdown(sender) => {
+                                    // Drop every callback (and whatever it owns) before
+                                    // acknowledging, then stop for good.
+                                    self.handlers.clear();
+                                    let _ = sender.send(());
+                                    return;
+                                },
+                            }
                         }
                     },
                     // Event from one of our registered receivers, call callback.
